@@ -248,12 +248,12 @@ check("C11", "internal/zzverif/codec",
       assumptions=[STANDIN_VRF])
 
 check("C13", "internal/zzverif/codec",
-      rule="case = one byte string: the encoding of a generated value of one of the 121 types, 6 mutants of it (truncation, bit flip, discriminator byte := {0,1,2,3,7F,80,FE,FF}, hostile or non-minimal natural number inserted/overwritten, garbage suffix, byte deleted, random window, early-position byte) and every proper prefix of every 10th encoding; "
+      rule="case = one byte string: the encoding of a generated value of one of the 121 types, 6 mutants of it (truncation, bit flip, discriminator byte := {0,1,2,3,7F,80,FE,FF}, hostile or non-minimal natural number inserted/overwritten, garbage suffix, byte deleted, random window, early-position byte) every proper prefix of every 10th encoding, for types containing dictionaries the window mutants (w bytes copied over / swapped with the following w bytes at every early offset), and for every second encoding of at most 96 bytes every byte one up and one down; "
            "whenever the decoder accepts (DecodeWithConsumed = n), the decoded value must re-encode without error to exactly the n consumed bytes. distinct_nontrivial = distinct accepted byte strings",
       technique="accept-implies-canonical monitor (re-encode every accepted mutant) over mutated encodings of every serialisable type",
       level_text="Every accepted mutant of generated encodings is re-encoded and compared with the consumed bytes; held = every accepted string was the canonical encoding of its value on what was explored.",
       note=CODEC_NOTE + " Trailing bytes after a complete value are the caller's concern (DecodeWithConsumed reports them); they are not judged.",
-      shards=(8, 16), floors={"any": {"accepted": 20000, "accepted_mutants": 3000, "rejected": 30000}},
+      shards=(8, 16), floors={"any": {"accepted": 20000, "accepted_mutants": 3000, "rejected": 30000, "encodings_perturbed_at_every_byte": 500}},
       assumptions=[STANDIN_VRF])
 
 check("C14", "internal/zzverif/codec",
@@ -269,12 +269,13 @@ check("C14", "internal/zzverif/codec",
 check("C17", "internal/zzverif/c17",
       rule="case = one generated full state (all 16 components by reflection inside the encoder's own validation domain, tiny parameters and every 40th case full; 0..8 services with ids around byte-boundary values, 0..6 storage entries with key lengths 0..40 incl. keys that extend other keys, 0..4 preimages keyed by their hash, lookup entries with a matching preimage, with another length for the same hash, and without any preimage) exported with StateEncoder; "
            "the service part of the export is compared with a model of GP D.1/D.2 key construction written in the harness; then for 4 orders of the key-values (as exported, reversed, two random permutations) StateKeyValsToState must succeed and raw ++ StateEncoder(parsed) must be the same key->value set with no duplicate key and the same root (repository merklization and the independent trie model); the parsed components must equal the original values. "
-           "node stratum: FuzzServiceStub.SetState(header, shuffled key-values) followed by GetState(header hash) must return the same set and report the trie model's root. distinct_nontrivial = distinct roots of states with at least one service",
-      technique="round-trip monitor over generated states and permutations (key->value set equality, duplicate detection, root equality against an independent trie) + reference model of the state-key construction + SetState/GetState at the node boundary",
+           "node stratum: FuzzServiceStub.SetState(header, shuffled key-values) followed by GetState(header hash) must return the same set and report the trie model's root. par part (race build): states with 8..48 services exported with types.MaxWorkers = 1 and then 2, 3, 8, 64 under GOMAXPROCS 16 / 4 / 2: the same key->value set every time, no race report in the encoder's worker pool. distinct_nontrivial = distinct roots of states with at least one service",
+      technique="round-trip monitor over generated states and permutations (key->value set equality, duplicate detection, root equality against an independent trie) + reference model of the state-key construction + SetState/GetState at the node boundary + Go race detector and run-vs-run equality on the parallel export",
       level_text="Identity oracle on generated states: export, import in several orders, re-export with the raw entries; held = same key-value set and root on everything explored.",
       note="How the importer attributes entries (preimage / lookup / raw) is observed and reported, not judged: the statement only requires that nothing is lost or duplicated. The value under C(255,s) is not modelled (ServiceInfo codec belongs to C11). Trusts reftrie (C15's model).",
       shards=(8, 16), env={"JAM_FUZZ": "1"},
-      floors={"any": {"round_trips": 8000, "services": 3000, "storage_entries": 3000, "preimages_attributed": 1000, "lookups_attributed": 500, "lookups_without_preimage": 500, "lookups_other_length": 200,
+      extra_parts=[{"name": "par", "pkg": "internal/zzverif/c17", "race": True, "test": "TestVerifC17Par", "shards": {"quick": 4, "thorough": 8}}],
+      floors={"any": {"parallel_exports_compared": 600, "round_trips": 8000, "services": 3000, "storage_entries": 3000, "preimages_attributed": 1000, "lookups_attributed": 500, "lookups_without_preimage": 500, "lookups_other_length": 200,
                       "raw_entries_after_import": 3000, "full_params": 20, "node_round_trips": 300}},
       assumptions=[STANDIN_VRF])
 
@@ -314,14 +315,14 @@ check("C34", "internal/zzverif/c34",
       assumptions=[STANDIN_VRF])
 
 check("C28", "internal/telemetry",
-      rule="case = one run of the real tcpClient over an in-memory fault-injecting net.Conn (installed through tcpClient.dialer): buffer size in {1,2,8,64}, 1..12 emitter goroutines x 40..200 calls of Emit / EmitLazy / EmitFollowup / EmitFollowupLazy (parents: own last ID, another emitter's last ID, InvalidID), every payload tagged (emitter, counter) and the returned ID recorded; "
+      rule="case = one run of the real tcpClient over an in-memory fault-injecting net.Conn (installed through tcpClient.dialer): buffer size in {1,2,8,64}, 1..12 emitter goroutines x 40..200 calls of Emit / EmitLazy / EmitFollowup / EmitFollowupLazy (parents: own last ID, another emitter's last ID, InvalidID), a tenth of the events without payload (lazy builder returning nil or an empty slice, eager nil / empty payload: identified at the receiver by position and discriminator), every other payload tagged (emitter, counter) and the returned ID recorded; "
            "an injector applies 4..13 faults at random times: write error after 0..200 more bytes (also inside a frame), peer close, stall (writes parked on a channel; a burst of 3*buffer+8 emits is issued while the writer is stuck and must return), partial writes of 1..7 bytes per call on a third of the connections, failing dials, failure inside the node-info frame; Close races with the emitters in a third of the runs; GOMAXPROCS in {1,2,4,16}. "
            "After the run every connection's captured bytes are parsed by a receiver model and compared with the emitters' records (first frame = node info; implicit counter advanced by each Dropped count; delivered event's counter == seq of the ID its emitter got; one epoch per connection, growing; no event twice; nothing delivered for InvalidID; accepted follow-ups have their parent's epoch and carry its seq; no connection is given up by the client unless the harness injected a fault on it; after a clean Close of a healthy connection the receiver's counter equals the sender's next sequence number). distinct_nontrivial = distinct (connections, drop records, delivered, follow-ups, GOMAXPROCS) tuples observed",
       technique="offline checker over recorded wire streams and emitter-side ID records (receiver model of JIP-3 framing), real client under fault injection at the net.Conn boundary, Go race detector",
       level_text="Stress runs of the real client under injected connection faults; every captured stream is replayed through a receiver model and matched with the IDs the emitters received. Held = no misalignment, no blocked emitter and no race report on what was explored.",
       note="In-package harness (newTCPClient, dialer). The bounded model checking mentioned in the property's quantifier is outside this technique family and is not attempted. 'Never block' is judged as: every Emit issued while the connection's Write is parked returns (watchdog 30 s, more than 10^6 times the cost of an Emit). No sleeps are injected into the client's own code (no gofail rewrite); interleavings come from GOMAXPROCS, buffer sizes, Gosched/sleep in the emitters and the fault script.",
       shards=(8, 16), race=True, timeout=(900, 7200),
-      floors={"any": {"runs": 300, "reconnects": 300, "drop_records": 300, "events_delivered": 20000, "followups_delivered": 1000, "emits_returned_while_write_stalled": 1000, "close_racing_with_emitters": 50, "dial_failures": 30, "clean_ends_with_counter_equal_to_next_seq": 50, "followups_emitted_while_the_connection_was_replaced": 40}},
+      floors={"any": {"runs": 300, "reconnects": 300, "drop_records": 300, "events_delivered": 20000, "followups_delivered": 1000, "emits_returned_while_write_stalled": 1000, "close_racing_with_emitters": 50, "dial_failures": 30, "clean_ends_with_counter_equal_to_next_seq": 50, "followups_emitted_while_the_connection_was_replaced": 40, "payloadless_events_delivered": 500}},
       assumptions=[STANDIN_VRF])
 
 check("C32", "internal/zzverif/c32",
